@@ -89,6 +89,8 @@ mod graph;
 pub use graph::Graph;
 #[cfg(graphrs_verif)]
 pub use graph::verif::VerifSnapshot;
+#[cfg(graphrs_verif)]
+pub mod verif_hooks;
 
 pub(crate) use graph::adjacent_node::AdjacentNode;
 
